@@ -877,6 +877,24 @@ Proof.
   - rewrite (rs_frame _ _ _ _ _ _ R); [done|kne|]. by intros Heq%k_group_inj.
 Qed.
 
+(* a key whose hash is empty after its step is no longer registered *)
+Lemma red_gc_key_unreg T ih v6 s st sp :
+  red_inv st sp → ih_wf ih →
+  is_Some (r_hash (k_group v6) st !! k_swarm v6 s ih) →
+  r_hash (k_swarm v6 s ih) (red_gc_key T v6 (k_swarm v6 s ih) st) = ∅ →
+  r_hash (k_group v6) (red_gc_key T v6 (k_swarm v6 s ih) st) !! k_swarm v6 s ih = None.
+Proof.
+  intros I Hwf Hreg. unfold red_gc_key. cbv zeta. rewrite gc_key_inner by apply I. cbv beta iota.
+  rewrite key_is_seeder_swarm. change (if s then k_scount v6 else k_lcount v6) with (k_cnt v6 s).
+  set (k := k_swarm v6 s ih) in *. set (h := r_hash k st). set (g := fresh T h).
+  set (removed := Z.of_nat (size h) - Z.of_nat (size g)).
+  rewrite r_hlen_0. rewrite if_incr_hash, r_hash_put.
+  case_bool_decide as Hg.
+  - rewrite r_hdel_Some; rewrite if_incr_hash, r_hash_put_ne by kne; [|done]. cbv beta iota.
+    intros _. rsimp. apply lookup_delete.
+  - rsimp. done.
+Qed.
+
 (* one pass over a list of registered keys of family v6 *)
 Lemma red_gc_fold T v6 l : ∀ st sp,
   red_inv st sp → NoDup l → (∀ k, k ∈ l → is_Some (r_hash (k_group v6) st !! k)) →
@@ -886,12 +904,17 @@ Lemma red_gc_fold T v6 l : ∀ st sp,
     ∧ (∀ ih v6' s, ih_wf ih →
          role s (sm_get (ih, v6') sp') =
          if decide (k_swarm v6' s ih ∈ l) then fresh T (role s (sm_get (ih, v6') sp))
-         else role s (sm_get (ih, v6') sp)).
+         else role s (sm_get (ih, v6') sp))
+    ∧ (∀ k', k' ∉ l → k' ≠ k_group v6 → r_hash k' (foldr (red_gc_key T v6) st l) = r_hash k' st)
+    ∧ (∀ k', k' ∈ l → r_hash k' (foldr (red_gc_key T v6) st l) = ∅ →
+         r_hash (k_group v6) (foldr (red_gc_key T v6) st l) !! k' = None).
 Proof.
   induction l as [|k l IH]; intros st sp I Hnd Hreg.
-  - exists sp. split_and!; [done|done|]. intros ih v6' s Hwf. rewrite decide_False; [done|]. apply not_elem_of_nil.
+  - exists sp. split_and!; [done|done| |done|].
+    + intros ih v6' s Hwf. rewrite decide_False; [done|]. apply not_elem_of_nil.
+    + intros k' Hk'. by apply not_elem_of_nil in Hk'.
   - apply NoDup_cons in Hnd as [Hk Hnd].
-    destruct (IH st sp I Hnd) as (sp1 & I1 & Hfr1 & Hro1).
+    destruct (IH st sp I Hnd) as (sp1 & I1 & Hfr1 & Hro1 & Hhf1 & Hun1).
     { intros k' Hk'. apply Hreg. by right. }
     cbn [foldr]. set (st1 := foldr (red_gc_key T v6) st l) in *.
     assert (is_Some (r_hash (k_group v6) st1 !! k)) as Hreg1.
@@ -912,6 +935,15 @@ Proof.
         destruct (decide (k_swarm v6' s' ih' ∈ l)) as [Hin|Hin].
         -- rewrite decide_True; [done|]. by right.
         -- rewrite decide_False; [done|]. by apply not_elem_of_cons.
+    + intros k' Hk' Hg. apply not_elem_of_cons in Hk' as [Hk1 Hk2].
+      rewrite (rs_frame _ _ _ _ _ _ R) by done. by apply Hhf1.
+    + intros k' Hk' He. apply elem_of_cons in Hk' as [->|Hk'].
+      * by eapply red_gc_key_unreg.
+      * assert (k' ≠ k_swarm v6 s ih) as Hkne by (by intros ->).
+        assert (k' ≠ k_group v6) as Hkg.
+        { destruct (ri_grp _ _ I v6 k') as (s' & ih' & _ & ->); [|kne]. apply Hreg. by right. }
+        rewrite (rs_frame _ _ _ _ _ _ R) in He by done.
+        rewrite (rs_grp _ _ _ _ _ _ R) by done. by apply Hun1.
 Qed.
 
 Lemma red_gc_group_inv T v6 st sp :
@@ -920,7 +952,13 @@ Lemma red_gc_group_inv T v6 st sp :
     ∧ (∀ ih v6' s, ih_wf ih →
          role s (sm_get (ih, v6') sp') =
          if decide (v6' = v6) then fresh T (role s (sm_get (ih, v6') sp))
-         else role s (sm_get (ih, v6') sp)).
+         else role s (sm_get (ih, v6') sp))
+    (* hashes that are not swarm hashes of this family, and the other group hash, are untouched *)
+    ∧ (∀ k', (∀ s ih, ih_wf ih → k' ≠ k_swarm v6 s ih) → k' ≠ k_group v6 →
+         r_hash k' (red_gc_group T v6 st) = r_hash k' st)
+    (* every key still registered in this group has members *)
+    ∧ (∀ k', is_Some (r_hash (k_group v6) (red_gc_group T v6 st) !! k') →
+         r_hash k' (red_gc_group T v6 st) ≠ ∅).
 Proof.
   intros I. unfold red_gc_group.
   set (G := r_hash (k_group v6) st).
@@ -929,26 +967,32 @@ Proof.
   { intros k. rewrite elem_of_list_fmap. split.
     - intros ([k' v] & -> & Hel). apply elem_of_map_to_list in Hel. by exists v.
     - intros [v Hv]. exists (k, v). split; [done|]. by apply elem_of_map_to_list. }
-  destruct (red_gc_fold T v6 _ st sp I (NoDup_fst_map_to_list G)) as (sp' & I' & _ & Hro).
+  destruct (red_gc_fold T v6 _ st sp I (NoDup_fst_map_to_list G)) as (sp' & I' & Hfr & Hro & Hhf & Hun).
   { intros k. by rewrite Hin. }
-  exists sp'. split; [done|]. intros ih v6' s Hwf. rewrite Hro by done.
-  destruct (decide (v6' = v6)) as [->|Hv].
-  - destruct (decide (k_swarm v6 s ih ∈ _)) as [Hel|Hel]; [done|].
-    rewrite Hin in Hel.
-    assert (r_hash (k_swarm v6 s ih) st = ∅) as He.
-    { destruct (decide (r_hash (k_swarm v6 s ih) st = ∅)) as [|Hne]; [done|].
-      destruct Hel. by apply (ri_reg _ _ I). }
-    rewrite (ri_hash _ _ I) in He by done. by rewrite He, fresh_empty.
-  - rewrite decide_False; [done|]. rewrite Hin. intros Hs.
-    destruct (ri_grp _ _ I _ _ Hs) as (s' & ih' & Hwf' & Heq).
-    apply k_swarm_inj in Heq as (-> & _); done.
+  exists sp'. split_and!; [done| | |].
+  - intros ih v6' s Hwf. rewrite Hro by done.
+    destruct (decide (v6' = v6)) as [->|Hv].
+    + destruct (decide (k_swarm v6 s ih ∈ _)) as [Hel|Hel]; [done|].
+      rewrite Hin in Hel.
+      assert (r_hash (k_swarm v6 s ih) st = ∅) as He.
+      { destruct (decide (r_hash (k_swarm v6 s ih) st = ∅)) as [|Hne]; [done|].
+        destruct Hel. by apply (ri_reg _ _ I). }
+      rewrite (ri_hash _ _ I) in He by done. by rewrite He, fresh_empty.
+    + rewrite decide_False; [done|]. rewrite Hin. intros Hs.
+      destruct (ri_grp _ _ I _ _ Hs) as (s' & ih' & Hwf' & Heq).
+      apply k_swarm_inj in Heq as (-> & _); done.
+  - intros k' Hk' Hg. apply Hhf; [|done]. rewrite Hin. intros Hs.
+    destruct (ri_grp _ _ I _ _ Hs) as (s' & ih' & Hwf' & ->). by eapply Hk'.
+  - intros k' Hs He. destruct (decide (k' ∈ (map_to_list G).*1)) as [Hel|Hel].
+    + rewrite Hun in Hs by done. by destruct Hs.
+    + rewrite Hfr in Hs by done. by rewrite Hin in Hel.
 Qed.
 
 Lemma red_gc_inv T st sp : red_inv st sp → red_inv (red_gc T st) (sm_gc T sp).
 Proof.
   intros I. unfold red_gc.
-  destruct (red_gc_group_inv T false st sp I) as (sp1 & I1 & H1).
-  destruct (red_gc_group_inv T true _ sp1 I1) as (sp2 & I2 & H2).
+  destruct (red_gc_group_inv T false st sp I) as (sp1 & I1 & H1 & _).
+  destruct (red_gc_group_inv T true _ sp1 I1) as (sp2 & I2 & H2 & _).
   replace (sm_gc T sp) with sp2; [done|].
   apply spec_ext; [apply I2|apply no_empty_gc|].
   intros [ih v6]. rewrite sm_get_gc.
@@ -958,6 +1002,21 @@ Proof.
   - rewrite !sm_get_None; [by rewrite sw_expire_empty| |].
     + apply eq_None_not_Some. intros Hs. by apply Hwf, (ri_spec_wf _ _ I _ v6).
     + apply eq_None_not_Some. intros Hs. by apply Hwf, (ri_spec_wf _ _ I2 _ v6).
+Qed.
+
+(* after a complete pass the registered keys are exactly the non-empty swarm hashes *)
+Lemma red_gc_registered_nonempty T st sp v6 k :
+  red_inv st sp → is_Some (r_hash (k_group v6) (red_gc T st) !! k) → r_hash k (red_gc T st) ≠ ∅.
+Proof.
+  intros I. unfold red_gc.
+  destruct (red_gc_group_inv T false st sp I) as (sp1 & I1 & _ & _ & Hne1).
+  destruct (red_gc_group_inv T true _ sp1 I1) as (sp2 & I2 & _ & Hhf2 & Hne2).
+  destruct v6; [apply Hne2|].
+  intros Hs.
+  destruct (ri_grp _ _ I2 _ _ Hs) as (s & ih & Hwf & ->).
+  rewrite Hhf2 in Hs; [|kne|by intros ?%k_group_inj].
+  rewrite Hhf2; [by apply Hne1| |kne].
+  intros s' ih' Hwf' Heq. apply k_swarm_inj in Heq as (? & _); done.
 Qed.
 
 (* ---- every store operation preserves the invariant, against the same
@@ -1284,3 +1343,132 @@ Proof.
   destruct (redis_put_refreshes ops ih v6 pk Hwf Hih) as (H1 & H2 & H3 & _). fold c in H1, H2, H3.
   split_and!; apply redis_gc_peer; try done; apply Forall_app; (split; [done|]); by apply Forall_singleton.
 Qed.
+
+(* clause (5) of the invariant in terms of the raw keyspace: the only hashes
+   that exist are the two group hashes and swarm hashes of well-formed infohashes *)
+Lemma red_keyspace st sp k :
+  red_inv st sp → is_Some (hs st !! k) →
+  (∃ v6, k = k_group v6) ∨ (∃ v6 s ih, ih_wf ih ∧ k = k_swarm v6 s ih).
+Proof.
+  intros I [h Hk]. apply (ri_keys _ _ I). unfold r_hash. rewrite Hk. cbn. by apply (ri_ne _ _ I k).
+Qed.
+Theorem redis_keyspace : ∀ ops, Forall sop_wf ops → ∀ k h,
+  hs (run_redis ops) !! k = Some h →
+  h ≠ ∅ ∧ ((∃ v6, k = k_group v6) ∨ (∃ v6 s ih, ih_wf ih ∧ k = k_swarm v6 s ih)).
+Proof.
+  intros ops Hwf k h Hk. pose proof (red_inv_run ops Hwf) as I. split.
+  - by apply (ri_ne _ _ I k).
+  - by eapply red_keyspace.
+Qed.
+
+(* ================================================================== examples *)
+
+(* the hypotheses are satisfiable: a 12-step history with the same peer ID on
+   two ports, a completed, a stop after the completed, both families, an expiry *)
+Definition redis_ex_ih : list Z := repeat 7 20.
+Definition redis_ex_ih2 : list Z := repeat 255 20.
+Definition redis_ex_pa : peer := {| p_id := repeat 65 20; p_ip := [10; 0; 0; 1]; p_port := 6881 |}.
+Definition redis_ex_pb : peer := {| p_id := repeat 65 20; p_ip := [10; 0; 0; 1]; p_port := 6882 |}.
+Definition redis_ex_ann (ih : list Z) (p : peer) (left : Z) (e : event) : ann :=
+  {| a_ih := ih; a_v6 := false; a_peer := p; a_left := left; a_event := e; a_numwant := 50 |}.
+Definition redis_ex_ops : list sop :=
+  [ SClock 100; SAnnounce (redis_ex_ann redis_ex_ih redis_ex_pa 5 EvStarted);
+    SAnnounce (redis_ex_ann redis_ex_ih redis_ex_pb 0 EvNone);
+    SClock 200; SAnnounce (redis_ex_ann redis_ex_ih redis_ex_pa 0 EvCompleted);
+    SPutLeecher redis_ex_ih2 true (peer_key redis_ex_pa);
+    SAnnounce (redis_ex_ann redis_ex_ih redis_ex_pa 0 EvStopped); SClock 300;
+    SPutSeeder redis_ex_ih2 true (peer_key redis_ex_pb);
+    SExpire 100; SDelLeecher redis_ex_ih2 true (peer_key redis_ex_pa);
+    SGraduate redis_ex_ih false (peer_key redis_ex_pa) ].
+
+Example redis_ex_ih_wf : ih_wf redis_ex_ih ∧ ih_wf redis_ex_ih2.
+Proof. by repeat split. Qed.
+Example redis_ex_ops_wf : Forall sop_wf redis_ex_ops.
+Proof. unfold redis_ex_ops. repeat apply Forall_cons_2; try apply Forall_nil_2; by repeat split. Qed.
+
+Definition redis_ex_flat (o : (Z * Z) * option swarm) :=
+  (o.1, option_map (λ sw, (map_to_list (seeders sw), map_to_list (leechers sw))) o.2).
+Example redis_ex_observe :
+  redis_ex_flat (observe red_if (run_redis redis_ex_ops) redis_ex_ih false)
+    = ((1, 0), Some ([(peer_key redis_ex_pa, 300)], []))
+  ∧ redis_ex_flat (observe red_if (run_redis redis_ex_ops) redis_ex_ih2 true)
+    = ((1, 0), Some ([(peer_key redis_ex_pb, 300)], []))
+  ∧ redis_ex_flat (observe red_if (run_redis redis_ex_ops) redis_ex_ih2 false) = ((0, 0), None)
+  ∧ red_prom (run_redis redis_ex_ops) = (2, 2, 0).
+Proof. by vm_compute. Qed.
+
+(* What the Redis swarm total is NOT: it is not the number of swarms of the
+   specification ([st_prom spec_if] reports [size m]).  A swarm that only has
+   leechers is not counted, and a swarm whose seeders were all deleted stays
+   counted until the next expiry pass unregisters its key.  Both are within the
+   wording of C17 ("for Redis: swarms with a registered seeder set"); they are
+   recorded here so that nobody states the stronger equation. *)
+Example redis_swarm_total_skips_leecher_only :
+  let ops := [SPutLeecher redis_ex_ih false [1]] in
+  Forall sop_wf ops ∧ red_prom (run_redis ops) = (0, 0, 1) ∧ st_prom spec_if (run_spec ops) = (1, 0, 1).
+Proof. split; [|by vm_compute]. repeat apply Forall_cons_2; try apply Forall_nil_2; by repeat split. Qed.
+Example redis_swarm_total_keeps_stale_registration :
+  let ops := [SPutSeeder redis_ex_ih false [1]; SDelSeeder redis_ex_ih false [1]] in
+  Forall sop_wf ops ∧ red_prom (run_redis ops) = (1, 0, 0) ∧ st_prom spec_if (run_spec ops) = (0, 0, 0)
+  ∧ red_prom (run_redis (ops ++ [SExpire 0])) = (0, 0, 0).
+Proof. split; [|by vm_compute]. repeat apply Forall_cons_2; try apply Forall_nil_2; by repeat split. Qed.
+
+(* ================================================================== further corollaries *)
+
+(* right after an expiry pass a swarm key is registered iff its hash has a
+   member: emptied swarms are unregistered, so the swarm total then counts
+   exactly the swarms that have a seeder *)
+Theorem redis_gc_registered_exact : ∀ ops T, Forall sop_wf ops → ∀ ih v6 s, ih_wf ih →
+  let st' := run_redis (ops ++ [SExpire T]) in
+  is_Some (r_hash (k_group v6) st' !! k_swarm v6 s ih) ↔ r_hash (k_swarm v6 s ih) st' ≠ ∅.
+Proof.
+  intros ops T Hwf ih v6 s Hih. cbn zeta. rewrite run_redis_expire.
+  pose proof (red_inv_run ops Hwf) as I. split.
+  - by eapply red_gc_registered_nonempty.
+  - by apply (ri_reg _ _ (red_gc_inv T _ _ I)).
+Qed.
+
+(* in every reachable state a swarm hash with a member is registered (the
+   converse can fail between passes: see redis_swarm_total_keeps_stale_registration) *)
+Theorem redis_nonempty_registered : ∀ ops, Forall sop_wf ops → ∀ ih v6 s, ih_wf ih →
+  r_hash (k_swarm v6 s ih) (run_redis ops) ≠ ∅ →
+  is_Some (r_hash (k_group v6) (run_redis ops) !! k_swarm v6 s ih).
+Proof. intros ops Hwf ih v6 s Hih. by apply (ri_reg _ _ (red_inv_run ops Hwf)). Qed.
+
+(* DeleteSeeder / DeleteLeecher answer "resource does not exist" exactly when
+   the specification does *)
+Theorem redis_delete_result : ∀ ops ih v6 pk, Forall sop_wf ops → ih_wf ih →
+  (st_del_seeder red_if ih v6 pk (run_redis ops)).2 = (st_del_seeder spec_if ih v6 pk (run_spec ops)).2
+  ∧ (st_del_leecher red_if ih v6 pk (run_redis ops)).2 = (st_del_leecher spec_if ih v6 pk (run_spec ops)).2.
+Proof.
+  intros ops ih v6 pk Hwf Hih. pose proof (red_inv_run ops Hwf) as I. split.
+  - by apply red_del_seeder_inv.
+  - by apply red_del_leecher_inv.
+Qed.
+
+(* the two runs read the same clock *)
+Lemma run_clock_eq ops : Forall sop_wf ops → (srun red_if redis_init ops).2 = (srun spec_if spec_init ops).2.
+Proof.
+  intros Hwf. unfold srun.
+  apply (srun_inv_from ops (redis_init, 0) (spec_init, 0)); [done|done|apply red_inv_init].
+Qed.
+
+(* what the response hook may answer (Model/Hooks.v, C02) only depends on the
+   observables, so it transfers from the specification to the Redis store *)
+Lemma red_inv_response_verdict a st sp complete incomplete peers :
+  red_inv st sp → ih_wf (a_ih a) →
+  response_verdict red_if a st complete incomplete peers
+  = response_verdict spec_if a sp complete incomplete peers.
+Proof.
+  intros I Hwf. pose proof (red_inv_observe st sp (a_ih a) (a_v6 a) I Hwf) as Ho.
+  unfold observe in Ho.
+  assert (st_scrape red_if (a_ih a) (a_v6 a) st = st_scrape spec_if (a_ih a) (a_v6 a) sp) as Hs
+    by (by injection Ho).
+  assert (st_members red_if (a_ih a) (a_v6 a) st = st_members spec_if (a_ih a) (a_v6 a) sp) as Hm
+    by (by injection Ho).
+  unfold response_verdict, key_lists. by rewrite Hs, Hm.
+Qed.
+Theorem redis_response_verdict : ∀ ops a complete incomplete peers, Forall sop_wf ops → ih_wf (a_ih a) →
+  response_verdict red_if a (run_redis ops) complete incomplete peers
+  = response_verdict spec_if a (run_spec ops) complete incomplete peers.
+Proof. intros ops a c i peers Hwf Hih. apply red_inv_response_verdict; [by apply red_inv_run|done]. Qed.
